@@ -49,6 +49,12 @@ Definition discipline_ok (tbl : list access) : bool :=
 Definition discipline_violations (tbl : list access) : list (access * access) :=
   flat_map (fun a => map (fun b => (a, b)) (filter (fun b => negb (pair_ok a b)) (live tbl))) (live tbl).
 
+(* every thread-safe access to one location holds one given lock (writers exclusively) *)
+Definition guarded_by (loc lock : string) (tbl : list access) : bool :=
+  forallb (fun a => negb (String.eqb (a_loc a) loc) || has_lock lock (need a) (a_locks a)) (live tbl).
+Definition written_by_live (loc : string) (tbl : list access) : bool :=
+  existsb (fun a => String.eqb (a_loc a) loc && a_write a) (live tbl).
+
 (* ranks by relaxation over the edge list: rank b >= rank a + 1 for every edge (a,b) *)
 Fixpoint lookup (m : string) (r : list (string * nat)) : nat :=
   match r with [] => 0 | (k, v) :: t => if String.eqb k m then v else lookup m t end.
